@@ -9,16 +9,16 @@ Conventions of every generated program: each binding holds a distinct string, ev
 observable through the host function out(...), uses come after the declarations of their own scope
 (no temporal dead zone), nested functions are called.
 
-Excluded construct (known finding C02/with-outer, see known/C02.txt): a `with` statement whose body
-(including nested functions) references a renamable binding that is declared outside the innermost
-function containing that `with`.  Generators never reference an outer local from inside a with body.
-Two more excluded constructs (known findings): a loop body block that re-declares the loop variable's name
-and refers to that name before the inner declaration (C02/tdz); declarations inside a class static block (C02/static-var, C02/static-let);
-parameter defaults/patterns of, and array or object literals containing identifiers inside the body of, an
-object-literal method/accessor that is written inside a parenthesised expression (C02/paren-method); a function
-whose parameter default references a name that its body declares with `var` (C02/default-var), or declares at all
-when the function also has a rest parameter (C02/rest-default); a function that contains `with`, declares a name
-that the renamer may hand out, and refers to a local of an enclosing function (C02/with-inner).
+Excluded constructs (known findings, all scoping defects of the parse dependency; see known/C02.txt):
+a loop body block that re-declares the loop variable's name and refers to that name before the inner declaration
+(C02/tdz); `var` inside a class static block (C02/static-var); parameter defaults/patterns of, and array or object
+literals containing identifiers inside the body of, an object-literal method/accessor that is written inside a
+parenthesised expression (C02/paren-method); a function whose parameter default references a name that its body
+declares with `var` (C02/default-var), or declares at all when the function also has a rest parameter
+(C02/rest-default).  Fixed and generated again since 1428ce2 / 1b51557: lexical declarations in static blocks,
+references from a with body (or from a with-function) to locals of enclosing functions and blocks.
+Not a renaming matter but avoided (reported to C09): in a function whose names are kept because of a `with`, a name
+is never both a var and a lexical name - hoistVars may put `var x` next to `let x`.
 """
 
 # the order in which the minifier hands out names is private to it; these are all names of length 1
@@ -54,47 +54,6 @@ def ref(rnd, names, plain=False):
 # ------------------------------------------------------------------------------------------------
 # MC trees
 # ------------------------------------------------------------------------------------------------
-def tree_uses_outer_from_with(units):
-    """syntactic filter for the excluded construct, on the abstract tree: some reference below a
-    unit with w=TRUE names a binding of a strict ancestor unit (top level excluded: never renamed)"""
-    n = len(units)
-
-    def declared(i):
-        u = units[i]
-        return set(u['ps']) | set(u['ls'])
-
-    def var_target(i):
-        # unit index (or -1 top) in which a var written in block i binds
-        j = units[i]['par'] - 1
-        while j >= 0 and units[j]['kind'] != 'F':
-            j = units[j]['par'] - 1
-        return j
-
-    hoisted = {}
-    for i, u in enumerate(units):
-        for v in u['vs']:
-            hoisted.setdefault(var_target(i), set()).add(v)
-    for i, u in enumerate(units):
-        names = set(u['us']) | set(u['vs'])
-        # walk up; remember whether a with unit was passed (the unit's own with wraps its references)
-        j = i
-        crossed = False
-        pending = set(names)
-        while j >= 0 and pending:
-            uj = units[j]
-            own = declared(j) | hoisted.get(j, set())
-            if j != i or True:
-                hit = pending & own
-                if crossed:
-                    if hit:
-                        return True
-                pending -= hit
-            if uj['kind'] == 'F' and uj['w']:
-                crossed = True
-            j = uj['par'] - 1
-    return False
-
-
 def render_plain(t):
     """the plain rendering used for the DRIFT comparison with the design model: anonymous function
     expressions and bare blocks only, so that the program declares exactly the bindings of the tree"""
@@ -151,7 +110,8 @@ def render_tree(t, rnd):
             # (inside a parenthesised object-literal method no array/object literals: known finding C02/paren-method)
             b = inner(i, pm or style == 'method')
             if u['w']:
-                b = 'with({}){' + b + '}'
+                owned = [nm for nm in sorted(set(u['us']) | set(u['ls'])) if rnd.random() < 0.5]
+                b = 'with({%s}){%s}' % (','.join('%s:"W%d_%s"' % (nm, i, nm) for nm in owned), b)
             if style == 'iife':
                 return '(function(%s){%s%s})(%s);' % (ps, lets, b, args)
             if style == 'arrow':
@@ -316,7 +276,7 @@ def class_scopes(rnd):
         'function f(%(a)s){var %(b)s=class %(c)s{static p=%(a)s;q=%(a)s+"q";static who(){return %(c)s.p}};out(%(b)s.who(),new %(b)s().q,typeof %(c)s,typeof %(g)s)}f("A");',
         'function f(%(a)s){let %(b)s={%(a)s,%(c)s:%(a)s,[%(a)s]:1,m(%(d)s){return %(d)s+%(a)s},get g(){return %(a)s},set s(%(d)s){out(%(d)s,%(a)s)}};%(b)s.s="S";out(%(b)s.%(a)s,%(b)s.%(c)s,%(b)s.m("M"),%(b)s.g,Object.keys(%(b)s))}f("A");',
         'function f(){let {%(a)s,%(b)s:%(c)s,...%(d)s}={%(a)s:1,%(b)s:2,z:3};out(%(a)s,%(c)s,%(d)s);({%(a)s,%(b)s:%(c)s}={%(a)s:4,%(b)s:5});out(%(a)s,%(c)s,typeof %(g)s)}f();',
-        'function f(%(a)s,%(c)s){class %(b)s{static{out(%(a)s,%(c)s,typeof %(d)s)}static %(d)s=%(a)s}out(%(b)s.%(d)s,typeof %(g)s)}f("A","C");',   # no declarations in a static block: known findings C02/static-var, C02/static-let
+        'function f(%(a)s,%(c)s){class %(b)s{static{let %(d)s=%(a)s+"s";const %(c)s=%(d)s;{let %(a)s=%(c)s+"!";out(%(a)s)}out(%(d)s,%(c)s)}static %(d)s=%(a)s+%(c)s}out(%(b)s.%(d)s,typeof %(g)s)}f("A","C");',   # (no `var` in a static block: known finding C02/static-var)
     ]
     return rnd.choice(forms) % dict(a=a, b=b, c=c, d=d, g=g)
 
@@ -397,6 +357,11 @@ def with_own(rnd):
         '({m(%(a)s,%(b)s){var %(c)s="C";with({%(c)s:"wc",%(a)s:"wa"}){out(%(a)s,%(b)s,%(c)s)}return %(c)s}}).m("A","B");',
         '((%(a)s,%(b)s)=>{let %(c)s="C";with({%(c)s:"wc",%(b)s:"wb"}){out(%(a)s,%(b)s,%(c)s)}})("A","B");',
         'function f(%(a)s){try{throw "E"}catch(%(b)s){with({%(b)s:"wb"}){out(%(a)s,%(b)s)}}switch(1){case 1:let %(c)s="C";with({%(c)s:"wc"})out(%(c)s)}}f("A");',
+        'function g(%(a)s){var %(b)s="B";function f(%(c)s){with(%(c)s){return [%(a)s,%(b)s]}}let %(d)s=f({%(b)s:"wb"});out(%(d)s,f({}))}g("A");',
+        '{let %(a)s="A";const %(b)s="B";with({%(a)s:"wa"}){out(%(a)s,%(b)s)}(function(%(c)s){with(%(c)s)out(%(a)s,%(b)s)})({%(b)s:"wb"})}',
+        'function g(%(a)s){let %(b)s="B";return (%(c)s)=>{var %(d)s="D";with(%(c)s){out(%(a)s,%(b)s,%(d)s)}return function(){return %(a)s+%(b)s}}}out(g("A")({%(a)s:"wa",%(d)s:"wd"})());',
+        'function g(%(a)s){var %(b)s="Q";(function(){var %(c)s="I";out(%(b)s,%(c)s,%(a)s);with({}){}})();(function(%(d)s){let %(c)s=%(d)s+%(b)s;out(%(c)s)})("n")}g("A");',
+        'function g(%(a)s){for(let %(b)s of ["B"]){let %(c)s="C";({m(%(d)s){with(%(d)s){out(%(a)s,%(b)s,%(c)s)}}}).m({%(c)s:"wc"})}}g("A");',
     ]
     return rnd.choice(forms) % dict(a=a, b=b, c=c, d=d)
 
@@ -449,9 +414,8 @@ def module_program(rnd):
 POOL = ['e', 't', 'n', 's', 'o', 'i', 'a', 'r', 'x', 'y', '$', '_', 'ee', 'te', 'v1', 'E', 'T']
 FN_POOL = ['fe', 'ft', 'nn', 'F1', 'tt']
 CL_POOL = ['Ce', 'Ct', 'K1']
-WVAR = ['we_01', 'wt_02', 'wn_03', 'wr_07']
-WLEX = ['ws_04', 'wo_05', 'wi_06', 'wa_08']
-WPOOL = WVAR + WLEX
+WVAR = POOL[0::2]      # in programs with `with`: names used for var declarations and parameters ...
+WLEX = POOL[1::2]      # ... and names used for let/const, loop and catch variables
 
 
 class _Gen:
@@ -464,7 +428,7 @@ class _Gen:
         self.maxdepth = maxdepth
         self.n = 0
         self.paren_method = 0     # >0 while generating the body of an object-literal method written inside (...)
-        self.allow_with = True
+        self.with_program = rnd.random() < 0.3   # the program contains with statements
         self.withfn = False       # the function being generated contains a with statement
         self.strict = 0           # >0 inside class bodies (strict mode: no with)
 
@@ -475,20 +439,20 @@ class _Gen:
     def uses(self, k):
         # (no array/object literal with identifiers inside a parenthesised object-literal method:
         #  known finding C02/paren-method)
-        names = POOL + WPOOL if self.withfn else POOL
-        return ''.join(ref(self.r, names, plain=self.paren_method > 0) for _ in range(k))
+        return ''.join(ref(self.r, POOL, plain=self.paren_method > 0) for _ in range(k))
 
+    # A program that contains `with` anywhere keeps the names of every function around it (fix 1b51557), so in such a
+    # program (self.with_program) a name is either a var/parameter name or a lexical name, never both: hoistVars may
+    # move `var x` into a var statement that sits inside a block declaring x lexically, and with renaming switched off
+    # nothing makes the two differ - invalid output, reported to C09, not a renaming matter.
     def dpool(self):
-        # Own names of a function that contains `with` keep their spelling; they are taken from a pool that no
-        # generated name can equal, because such a function also refers to locals of the functions around it
-        # (known finding C02/with-inner: an outer local is shortened to a name that the with-function declares)
-        return WPOOL if self.withfn else POOL
+        return POOL
+
+    def vpool(self):
+        return WVAR if self.with_program else POOL
 
     def lpool(self):
-        # lexical names (let/const, loop and catch variables) of a with-function are disjoint from its var/parameter
-        # names: hoistVars may move `var x` into a var statement that sits inside a block declaring x lexically, and
-        # with renaming switched off nothing makes the two differ - invalid output, reported to C09, not a renaming matter
-        return WLEX if self.withfn else POOL
+        return WLEX if self.with_program else POOL
 
     def emit_decls(self, decls):
         """decls: list of (kw, name); consecutive declarations with the same keyword are sometimes written as
@@ -540,11 +504,11 @@ class _Gen:
         decls = []
         for nm in r.sample(self.dpool(), r.choice([0, 1, 1, 2, 2, 3, 4])):
             kw = r.choice(['let', 'const', 'var', 'var'])
-            if self.withfn:
+            if self.with_program:
                 kw = r.choice(['let', 'const']) if nm in WLEX else 'var'
             if kw == 'var' and (nm in no_var or nm in lex):
                 kw = 'let'
-                if self.withfn:
+                if self.with_program:
                     continue
             if kw != 'var' and (nm in no_let or nm in lex or nm in vars_):
                 continue
@@ -556,7 +520,9 @@ class _Gen:
         if is_func and self.withfn:
             # nothing is referenced inside the with body, so the excluded construct (with-outer) cannot arise, but the
             # function - including every block scope and every code after nested functions - must keep its names
-            with_stmt = r.choice(['with({}){}', 'with({}){out("w")}', 'with(out){}'])
+            # the with body refers to anything in sight: own names, locals of the functions around, free names
+            owned = r.sample(POOL, r.randint(0, 3))
+            with_stmt = r.choice(['with({}){}', 'with({%s}){%s}' % (','.join('%s:%s' % (n, self.val(n)) for n in owned), self.uses(r.randint(1, 3)))])
             if r.random() < 0.5:
                 s.append(with_stmt)
                 with_stmt = ''
@@ -617,8 +583,8 @@ class _Gen:
                       'switch2'])
         if k in ('func', 'arrow', 'method', 'named', 'classm', 'gen'):
             saved_withfn = self.withfn
-            self.withfn = self.allow_with and not self.strict and k != 'classm' and r.random() < 0.12
-            ps = r.sample(WVAR if self.withfn else POOL, r.choice([0, 1, 2, 3]))
+            self.withfn = self.with_program and not self.strict and k != 'classm' and r.random() < 0.3
+            ps = r.sample(self.vpool(), r.choice([0, 1, 2, 3]))
             # (a parenthesised object-literal method gets plain parameters: known finding C02/paren-method)
             self.default_names = set()
             pl, args = self.params(ps, plain=(k == 'method'))
@@ -650,7 +616,7 @@ class _Gen:
             return '({m(%s){%s}}).m(%s);' % (pl, body, args)
         if k == 'getter':
             saved_withfn = self.withfn
-            self.withfn = self.allow_with and not self.strict and r.random() < 0.12
+            self.withfn = self.with_program and not self.strict and r.random() < 0.3
             self.paren_method += 1
             body = self.func_body(depth, [])
             self.paren_method -= 1
@@ -675,7 +641,7 @@ class _Gen:
                 return 'for(const [%s,%s] of [[%s,%s]]){%s}' % (v, w, self.val(v), self.val(w), inner)
             return 'for(let {%s,k:%s} of [{%s:%s,k:%s}]){%s}' % (v, w, v, self.val(v), self.val(w), inner)
         if k == 'forvar':
-            cand = [x for x in (WVAR if self.withfn else POOL) if x not in no_var]
+            cand = [x for x in self.vpool() if x not in no_var]
             if cand:
                 v = r.choice(cand)
                 inner = 'out(%s);' % v + self.scope(depth, False, {v}, no_var)
@@ -711,5 +677,5 @@ def random_program(rnd, maxdepth=3):
     # a few top-level declarations that must stay, everything else inside one function
     tops = rnd.sample(['e', 't', 'n', 'G1', 'G2'], 2)
     head = ''.join('var %s="TOP_%s";' % (t, t) for t in tops)
-    ps = rnd.sample(POOL, 2)
+    ps = rnd.sample(g.vpool(), 2)
     return head + 'function main(%s){%s}main("A","B");' % (','.join(ps), g.func_body(1, ps))
